@@ -173,7 +173,7 @@ Viol(pre, c, r, h) ==
                        e == ChanDur(post.ch[j])
                    IN \* every aligned channel ends at the common time, rounded up to what
                       \* the channel can represent (minimum duration, clock period)
-                      e # (IF need > 0 /\ End(j) < T
+                      e # (IF need > 0
                            THEN ChanDur(pre.ch[j]) + RoundUp(Max2(need, cfg.minDur), cfg.clock)
                            ELSE ChanDur(pre.ch[j]))
         THEN {"C03.AlignTogether"} ELSE {})
